@@ -401,7 +401,9 @@ func (ex *Exec) convert(p *Path, v Value, to types.Type, pos token.Pos) Value {
 		return Value{v.T, to}
 	}
 	if toS == "Iface" {
-		return Value{ex.box(v), to}
+		b := Value{ex.box(v), to}
+		ex.linkErrorMethod(p, v, b)
+		return b
 	}
 	if from == "Iface" {
 		// generic value flowing into a concrete slot (instantiated generic) -- unbox
@@ -436,7 +438,12 @@ func (ex *Exec) box(v Value) string {
 	}
 	f := ex.c.Fun("box:"+sortToken(s), []string{s}, "Ref")
 	u := ex.c.Fun("unbox:"+sortToken(s), []string{"Ref"}, s)
-	ex.c.Axiom("unbox-box:"+sortToken(s), fmt.Sprintf("(forall ((x %s)) (! (= (%s (%s x)) x) :pattern ((%s x))))", s, u, f, f))
+	fact := "(= " + app(u, app(f, v.T)) + " " + v.T + ")"
+	if ex.quantFacts != nil {
+		*ex.quantFacts = append(*ex.quantFacts, fact)
+	} else {
+		ex.c.Axiom("unbox-box:"+fact, fact)
+	}
 	return "(mk_iface " + tid + " " + app(f, v.T) + ")"
 }
 
@@ -748,4 +755,33 @@ func (ex *Exec) evalElt(p *Path, e ast.Expr, t types.Type) Value {
 		return ex.evalComposite(p, cl, t)
 	}
 	return ex.eval(p, e)
+}
+
+// linkErrorMethod: when a repository type with an Error() string method is boxed into an interface, the
+// uninterpreted errmsg of the boxed value is the method's result on the current heap.
+func (ex *Exec) linkErrorMethod(p *Path, v Value, boxed Value) {
+	if ex.linking {
+		return
+	}
+	pkg := pkgOfType(v.Ty)
+	if pkg == nil || !ex.w.RepoPaths[pkg.Path()] {
+		return
+	}
+	obj, _, _ := types.LookupFieldOrMethod(v.Ty, true, pkg, "Error")
+	fn, ok := obj.(*types.Func)
+	if !ok {
+		return
+	}
+	sig := fn.Type().(*types.Signature)
+	if sig.Params().Len() != 0 || sig.Results().Len() != 1 || ex.c.SortOf(sig.Results().At(0).Type()) != "String" {
+		return
+	}
+	ex.linking = true
+	defer func() { ex.linking = false }()
+	saveCM := ex.contractMode
+	res := ex.callFunc(p, fn, &v, nil, nil)
+	ex.contractMode = saveCM
+	if len(res) == 1 {
+		ex.assumeFact(p, implies(not(ex.isNilTerm(v)), eq(ex.errMsg(boxed), res[0].T)))
+	}
 }
